@@ -345,7 +345,7 @@ def prove_on_box(pred, box, max_leaves=400000, min_width=1e-9, time_limit=600):
 
 
 # ------------------------------------------------------------------------------------
-def extract(harness, arg_names, relfile='verif:contracts/specfn.py'):
+def extract(harness, arg_names, relfile='verif:contracts/specfn.py', consts=None):
     """run the engine on harness(*symbolic reals) and return (z3 term(s) of the result, merged over paths)"""
     from .repoindex import get_index
     from .state import Ctx, State
@@ -365,7 +365,8 @@ def extract(harness, arg_names, relfile='verif:contracts/specfn.py'):
     ip.modular = False
     st = State()
     st.push(info)
-    args = [SNum(z3.Real(n)) for n in arg_names]
+    consts = consts or {}
+    args = [consts[n] if n in consts else SNum(z3.Real(n)) for n in arg_names]
     ctx.spec_depth += 1      # pure evaluation: no obligations
     outs = []
     for v, s in ip.call_function(info, args, {}, st, None):
